@@ -22,9 +22,9 @@ RULES = {
     "R3": "validate before writing: the size errors are raised before the first output effect; the width is checked unconditionally, the height unless "
           "scrolling is allowed (and always for animations)",
     "R4": "final state: Renderable.draw's clean-up writes exactly one newline, then SHOW_CURSOR under the hide condition, then flushes; the old API's "
-          "clean-up resets attributes and shows the cursor",
+          "clean-up resets attributes and shows the cursor; the newline and the flush are unconditional",
     "R5": "per-frame clearing is decided consistently: KittyImage._clear_frame clears explicitly exactly for the versions for which _display_animated does not "
-          "use blend=False (complementary version predicates)",
+          "use blend=False (complementary version predicates); animation frames are always drawn on the z-index `_clear_frame` deletes (unconditional `kwargs['z_index'] = <that value>`)",
 }
 RN, CM, IT, KT = "renderable/_renderable.py", "image/common.py", "image/iterm2.py", "image/kitty.py"
 
